@@ -20,6 +20,8 @@ DATA_METHODS = TB.STR_METHODS | TB.LIST_METHODS | TB.DICT_METHODS | {
     'group', 'groups', 'groupdict', 'start', 'end', 'span', 'quantize', 'to_integral_value', 'normalize', 'as_tuple',
     'is_nan', 'is_finite', 'is_infinite', 'copy_abs', 'copy_negate', 'sqrt', 'ln', 'log10', 'exp', 'adjusted',
     '__str__', '__repr__', '__format__',
+    # bytes / bytearray data methods
+    'decode', 'hex',
     # methods of compiled regular expressions (pure computation; their timeout discipline is C05's business)
     'search', 'match', 'fullmatch', 'findall', 'finditer', 'sub', 'subn',
     'create_decimal', 'create_decimal_from_float', 'to_integral', 'to_integral_exact'}
@@ -33,6 +35,14 @@ class Kinds:
         self.stt = stt
         self.in_eval = in_eval
         self.unknown: List[str] = []
+        self.param_defaults: Dict[str, Any] = {}      # parameter -> term of a default that is not a plain constant
+        self.assumptions: List[Tuple[Any, bool]] = []  # of the path being classified
+
+    def _join(self, *kinds: str) -> str:
+        for k in kinds:
+            if k not in P_KINDS:
+                return k
+        return kinds[0] if kinds else 'plain'
 
     def kind(self, t) -> str:
         F = self.F
@@ -50,8 +60,24 @@ class Kinds:
         if k in ('fstr', 'binop', 'unop', 'cmp', 'not', 'pcall'):
             if k == 'pcall' and t[1] == 'type':
                 return 'type'
+            if k == 'binop' and t[1] == '+' and any(isinstance(x, tuple) and x and x[0] in ('list', 'tuple') for x in t[2:4]):
+                # concatenation with a list/tuple display: the elements of the display are elements of the result
+                for x in t[2:4]:
+                    if isinstance(x, tuple) and x and x[0] in ('list', 'tuple'):
+                        kk = self.kind(x)
+                        if kk not in P_KINDS:
+                            return kk
+                return 'list'
             return 'plain'
         if k == 'param':
+            d = self.param_defaults.get(t[1])
+            if d is not None:
+                # the caller may have left the argument out: the parameter then holds its default, unless the path has
+                # established that it does not
+                excluded = any((not v) and isinstance(c, tuple) and c[:1] == ('cmp',) and c[1] in ('is', '==') and {c[2], c[3]} == {t, d}
+                               for c, v in self.assumptions)
+                if not excluded:
+                    return self._join(self.kind(d), 'P')
             return 'P'
         if k in ('elem', 'unpack', 'unpack*', 'star'):
             inner = self.kind(t[1])
@@ -125,8 +151,11 @@ class Kinds:
                     if kk is None:
                         self.unknown.append('builtin %s' % name)
                         return 'unknown'
-                    if kk in ('list', 'tuple', 'dict', 'element', 'same'):
-                        return kk
+                    # calls that hand back one of their arguments when there is nothing else to return
+                    if name == 'next' and len(args) == 2:
+                        return self._join(self.kind(args[1]), kk)
+                    if name in ('min', 'max') and any(kw == 'default' for kw, _ in t[4]):
+                        return self._join(self.kind(dict(t[4])['default']), kk)
                     return kk
                 if f[0] == 'ref' and f[1] == 'ext':
                     if f[2].startswith(('str.', 'list.', 'dict.')):
@@ -139,6 +168,8 @@ class Kinds:
                         return 'unknown'
                     if kk == 'same':
                         return self.kind(args[0]) if args else 'unknown'
+                    if f[2] == 'functools.reduce' and len(args) == 3:
+                        return self._join(self.kind(args[2]), kk)       # the initial value is the result for an empty input
                     return kk
                 if f[0] == 'ref' and f[1] in ('fn',):
                     self.unknown.append('package function %s (not inlined)' % f[2])
@@ -154,6 +185,8 @@ class Kinds:
                         return 'unknown'
                     if kk == 'same':
                         return self.kind(f[1])
+                    if f[2] in ('get', 'pop', 'setdefault') and len(args) == 2:
+                        return self._join(self.kind(args[1]), kk)       # the default is the result for a missing key
                     return kk
                 if f[0] == 'sub':
                     return 'P'                  # the one dynamic call: a callable from the scoped names
@@ -300,12 +333,23 @@ def check(chk: Check) -> None:
         fi = ent.funcinfo(F)
         params = {a.arg for a in fi.node.args.args + fi.node.args.kwonlyargs}
         ks = Kinds(F, params)
+        a_ = fi.node.args
+        pos = a_.posonlyargs + a_.args
+        for prm, dnode in list(zip(pos[len(pos) - len(a_.defaults):], a_.defaults)) + [
+                (x, d) for x, d in zip(a_.kwonlyargs, a_.kw_defaults) if d is not None]:
+            from ..facts import literal_const, _NOCONST
+            if literal_const(dnode) is _NOCONST:
+                r = F.resolve_expr(fi.module, dnode)
+                dt = ('const', r[1]) if r[0] == 'const' else (('ref', r[0], r[1]) if r[0] != 'unbound' else ('unknown', norm(dnode)))
+                if ks.kind(dt) not in P_KINDS:
+                    ks.param_defaults[prm.arg] = dt
         bad = {}
         n_ret = 0
         for p in SymExec(F, fi).run():
             if not p.normal:
                 continue
             n_ret += 1
+            ks.assumptions = [(c, v) for c, v, _ in p.assumptions]
             kk = ks.kind(p.outcome[1])
             if kk not in P_KINDS:
                 bad[show(p.outcome[1])] = kk
@@ -484,6 +528,11 @@ def classify_callee(F, e: Event) -> Tuple[str, str]:
             root = root[1]
         if m == om.EVAL:
             return ('package', 'child evaluation')
+        if isinstance(recv, tuple) and recv[:1] == ('super',):
+            # not resolved to a package method: a method of a builtin/stdlib base (object, Exception, dict, Decimal)
+            bases = F.ext_bases(recv[1]) if recv[1] in F.classes else []
+            if all(not b.startswith(TB.FORBIDDEN_EXT_PREFIXES) for b in bases):
+                return ('pure', 'method .%s of the non-package base class (%s)' % (m, ', '.join(bases) or 'object'))
         if isinstance(recv, tuple) and recv[:1] == ('attr',) and recv[2] in ('lex', 'yacc', 'lexer', 'parser') :
             return ('trusted', 'PLY object method .%s' % m)
         if isinstance(recv, tuple) and recv[:1] == ('ref',) and recv[1] == 'modvar':
@@ -500,12 +549,32 @@ def classify_callee(F, e: Event) -> Tuple[str, str]:
 
 def _r4(chk: Check, R4: str) -> None:
     F = chk.facts
-    for label, fi, _ in entry_units(chk):
+    todo = list(entry_units(chk))
+    done = set()
+    while todo:
+        label, fi, _ = todo.pop(0)
+        if fi.qual in done:
+            continue
+        done.add(fi.qual)
         try:
             paths = SymExec(F, fi).run()
         except AnalysisError as e:
             chk.unrec(R4, label, fi.where, str(e))
             continue
+        # package code that is called but was not run through here: callees past the inlining bound, generators, and the
+        # methods of objects that are only constructed (exception classes are never inlined)
+        for p_ in paths:
+            for e_ in p_.events:
+                if e_.kind != 'call':
+                    continue
+                if e_.d.get('ctor') and e_.resolved in F.classes:
+                    for cq in F.mro(e_.resolved):
+                        if cq in F.classes:
+                            for mn in F.cls(cq).methods:
+                                if mn.startswith('__') and (cq + '.' + mn) in F.functions and (cq + '.' + mn) not in done:
+                                    todo.append((cq + '.' + mn, F.func(cq + '.' + mn), None))
+                elif e_.resolved and e_.resolved in F.functions and not e_.d.get('inlined') and e_.resolved not in done:
+                    todo.append((e_.resolved, F.func(e_.resolved), None))
         allp = list(paths)
         for c in om.all_closures(paths):
             if True:
